@@ -80,7 +80,17 @@ func opList(v interface{}) []*operation.AnchoredOperation {
 	}
 	out := []*operation.AnchoredOperation{}
 	for _, x := range proto.Arr(v) {
-		out = append(out, &operation.AnchoredOperation{UniqueSuffix: x.(string)})
+		switch t := x.(type) {
+		case string:
+			out = append(out, &operation.AnchoredOperation{UniqueSuffix: t})
+		case map[string]interface{}:
+			a := &operation.AnchoredOperation{Type: operation.Type(t["type"].(string)), TransactionTime: uint64(proto.Num(t["t"])),
+				TransactionNumber: uint64(proto.Num(t["n"])), UniqueSuffix: "sfx", OperationRequest: []byte("{}")}
+			if cr, ok := t["cr"].(string); ok {
+				a.CanonicalReference = cr
+			}
+			out = append(out, a)
+		}
 	}
 	return out
 }
